@@ -53,6 +53,7 @@ type Options struct {
 	MaxJobs   int
 	NoReplay  bool
 	CrossVal  int // concrete cross-validation samples per job (0 = none)
+	OneShotMs int // timeout of escalated one-shot solver runs
 }
 
 type Plan struct {
@@ -152,7 +153,7 @@ func RunJobs(w *symex.World, jobs []Job, opt Options, known map[string]bool) []*
 					res[i] = jr
 					continue
 				}
-				ex := &symex.Explorer{Prog: w.Prog, World: w, Harness: h, Case: normCase(j.Case), St: st, Sol: sess, Known: known, Ring: j.Ring}
+				ex := &symex.Explorer{Prog: w.Prog, World: w, Harness: h, Case: normCase(j.Case), St: st, Sol: sess, Known: known, Ring: j.Ring, OneShotTimeoutMs: opt.OneShotMs}
 				ex.Run()
 				jr.Exp = ex
 				jr.SolverQ = sess.Queries - q0
